@@ -255,7 +255,7 @@ func c05RetryCase(i int) explore.CaseResult {
 	want := ref5.RetryTag(c05Version(v), odcid, retry)
 	if !bytes.Equal(got[:], want[:]) {
 		return explore.CaseResult{Outcome: "MISMATCH", Replay: i,
-			Fail: explore.Failf(fmt.Sprintf("retry-tag:%s:odcidlen=%d", c05VName(v), ol), "GetRetryIntegrityTag(retry of %d bytes, ODCID %x, %s) = %x, reference %x", len(retry), odcid, c05VName(v), got[:], want[:])}
+			Fail: explore.Failf(fmt.Sprintf("retry-tag:%s", c05VName(v)), "GetRetryIntegrityTag(retry of %d bytes, ODCID %x, %s) = %x, reference %x", len(retry), odcid, c05VName(v), got[:], want[:])}
 	}
 	// the tag must depend on the ODCID: a different ODCID of the same length gives a different tag
 	if ol > 0 {
